@@ -90,8 +90,23 @@ Definition hosts_register (t : tree) (rule : bytes) (f : bytes -> bool) : tree :
      tic := (rule, f) :: adelete rule (tic t) |}.
 
 (* Hosts.Match: (accepted, params; Context.Path is scratch) ; None = runtime panic *)
-Definition hosts_match (t : tree) (host : bytes) (ps : params) : option (bool * params) :=
+Definition hosts_match_raw (t : tree) (host : bytes) (ps : params) : option (bool * params) :=
   match tree_handler t GET (normalise_host host) ps with
   | HPanic _ => None
   | HFound ok _ _ ps' => Some (ok, ps')
   end.
+
+(* Hosts.Match after the lookup: every parameter that was there before and is gone is put back.
+   The list is a canonical spelling of Go's map: old keys in their old order (new value if the lookup
+   re-captured the name), then the new keys. *)
+Definition restore_missing (ps ps' : params) : params :=
+  map (fun kv => (fst kv, match ctx_get ps' (fst kv) with Some v' => v' | None => snd kv end)) ps
+  ++ filter (fun kv => negb (ctx_exists ps (fst kv))) ps'.
+
+Definition hosts_match (t : tree) (host : bytes) (ps : params) : option (bool * params) :=
+  match hosts_match_raw t host ps with
+  | Some (ok, ps') => Some (ok, restore_missing ps ps')
+  | None => None
+  end.
+
+Definition ctx_nodup (ps : params) : Prop := NoDup (map fst ps).
